@@ -129,6 +129,13 @@ check(
     "P9 (open, cannot be repaired with the suite unedited) relaxes 'target conforms' for function/argparse targets and idempotence/outside for Class.method targets only; class targets (present, missing, empty), truth-unchanged, compilation and byte-stability of class/argparse files stay strict.",
 )
 
+check(
+    "C19",
+    "Hypothesis-generated input modules x parse kind x 8 emit kinds x name templates x import inference x prepend x existing-output, through the gen CLI entry; compile, names == __all__ == templated names, per-symbol re-parse, import-closure and no-clobber oracles",
+    "Generated-input search over the gen configuration matrix and multi-symbol inputs: the output must compile, define exactly the templated names and list exactly those in __all__, each generated symbol parsed back must have the interface of its source entry (C02/C03 normalisations), every typing name used must be imported when inference is on, __future__ imports first; on an existing output file gen must refuse and leave bytes and mtime untouched.",
+    "P17d (sqlalchemy kinds with a non-identity template define the un-templated name) relaxes only the defined-names / re-parse clauses for those cells; SQLAlchemy-class, Table and JSON-schema *inputs* are not generated (P37).",
+)
+
 NOT_YET = "check not built yet in this round (work in progress; DESIGN.md section 4 has the plan)"
 
 
